@@ -324,7 +324,7 @@ def monFut (id : String) (decls : List FnDecl) (userD builtD : Dag) (a : DAcc) (
         let errs := kvCsv rest "errs"
         let st := (kv rest "state").getD "?"
         let flow := (kv rest "flow").getD "na"
-        let a := a.prop id "C09" (wh ++ " processed=started") (proc == m.realInvoked || (m.sawHandoutHook && proc == m.realHandout))
+        let a := a.prop id "C09" (wh ++ " processed=started") (proc == m.realInvoked)
         let a := a.prop id "C09" (wh ++ " notprocessed") (notp == (List.range c.n).filter (fun v => decide (v ∉ proc)))
         let a := a.prop id "C09" (wh ++ " state") ((st == "F") == (proc.length == c.n))
         let a := a.prop id "C09" (wh ++ " flow") (flow == "na" || ((flow == "cont") == (st == "F" && errs.isEmpty)))
